@@ -350,8 +350,8 @@ def gen_payload(rng, r, n):
         s = (chunk * (n // 97 + 1))[:n]
     else:
         s = "".join(rng.choice(a) for _ in range(n))
-    if r.first and n >= len(r.first):
-        s = r.first + s[len(r.first):]
+    if r.first:
+        s = (r.first + s[len(r.first):])[:n] if n >= len(r.first) else r.first[:n]
     return s
 
 
@@ -531,6 +531,28 @@ def suspects(case, sites):
     if re.search(r"lot_(tag|date|price)\(\s*null", alltext):
         S.append(("C11:crash:session.cc:fn_lot_x:null-amount", "lot_tag / lot_date / lot_price applied to a null value (an amount with no quantity is dereferenced)",
                   _map_texts(case, lambda t: re.sub(r"(lot_(?:tag|date|price)\(\s*)null", r"\g<1>1", t))))
+    if "select" in alltext and re.search(r"--columns[= ]+-\d", " ".join(texts)):
+        S.append(("C11:hang:select.cc:negative-columns", "select with a negative --columns: lexical_cast<size_t> wraps it to ~2^64 and every column is padded to ~10^18 characters",
+                  _map_texts(case, lambda t: re.sub(r"(--columns[= ]+)-(\d)", r"\g<1>\2", t))))
+    if any(re.match(r"--(budget|add-budget|unbudgeted|forecast)", a) for a in case.args) and any(a.startswith(("--anon", "--account")) for a in case.args):
+        keep, skip = [], False
+        for a in case.args:
+            if skip:
+                skip = False
+                continue
+            if a == "--account":
+                skip = True
+                continue
+            if a.startswith(("--anon", "--account=")):
+                continue
+            keep.append(a)
+        S.append(("C11:crash:filters.cc:generated-xact-null-journal", "--anon / --account applied to transactions generated from a periodic transaction (they have no journal)",
+                  Case(keep, case.journal, case.stdin, case.kind)))
+    msr = re.search(r"(?<![\w.])([A-Za-z_]\w*)\s*=(?![=~])([^;=\n]*?)(?<![\w.])\1(?![\w(])", alltext)
+    if msr:
+        name = msr.group(1)
+        S.append(("C11:stack:self-referential-definition", "a definition that refers to itself (`%s = ... %s ...`) recurses without limit when it is evaluated" % (name, name),
+                  _map_texts(case, lambda t: re.sub(r"((?<![\w.])%s\s*=(?![=~])[^;=\n]*?)(?<![\w.])%s(?![\w(])" % (re.escape(name), re.escape(name)), r"\g<1>1", t))))
     if "--script" in case.args:
         i = case.args.index("--script")
         S.append(("C11:hang:main.cc:script-loop", "--script FILE: the read loop tests only eof(), so a missing file or a line of 1023+ bytes loops forever",
@@ -581,7 +603,7 @@ def _norm_fn(f):
     return f.split(" ")[-1] or "unknown"
 
 
-def gdb_frames(case, binary, hang=False):
+def gdb_frames(case, binary, hang=False, env_extra=None):
     jpath = None
     args = list(case.args)
     tag = "%d_%d" % (os.getpid(), next(_counter))
@@ -596,7 +618,7 @@ def gdb_frames(case, binary, hang=False):
             p = subprocess.run((["timeout", "-s", "INT", str(int(hang))] if hang else []) +
                                ["gdb", "-batch", "-nx", "-ex", "run", "-ex", "bt 48", "--args", binary, "--args-only"] + args,
                                stdin=fin, stdout=subprocess.PIPE, stderr=subprocess.STDOUT, timeout=90, cwd=WORK,
-                               env={"PATH": "/usr/bin:/bin", "HOME": "/nonexistent", "TZ": "UTC", "LC_ALL": "C"})
+                               env=dict({"PATH": "/usr/bin:/bin", "HOME": "/nonexistent", "TZ": "UTC", "LC_ALL": "C"}, **(env_extra or {})))
         txt = p.stdout.decode("utf-8", "replace")
     except Exception:
         return None, []
@@ -633,19 +655,69 @@ def top_frame(case, native, asan_bin, hang=False):
             best = sorted(cnt.items(), key=lambda kv: (-kv[1], kv[0]))[0]
             if best[1] >= 6:
                 return "stack", best[0]
+        for pat, fam in FRAME_FAMILIES:
+            if any(pat in f for f in frames[:12]):
+                return fam
+        if frames and "_M_insert" in frames[0] and any(f.endswith("value_t::print") for f in frames[:4]):
+            return WIDTH_ALLOCA
         return "crash", (led[0] if led else "unknown")
     if asan_bin:
         o = run_case(case, asan_bin, asan=True)
-        txt = o.err.decode("utf-8", "replace")
-        for m in re.finditer(r"#\d+ 0x[0-9a-f]+ in (.+?) (/repo/src/[\w.]+):(\d+)", txt):
-            return "asan", "%s:%s" % (os.path.basename(m.group(2)), _norm_fn(m.group(1)))
-        m = re.search(r"(/repo/src/[\w.]+):(\d+):\d+: runtime error", txt)
-        if m:
-            return "ubsan", os.path.basename(m.group(1))
-        m = re.search(r"(\w[\w.]*):(\d+): .*Assertion", txt)
-        if m:
-            return "abort", m.group(1)
+        return classify_sanitizer(o.err.decode("utf-8", "replace"), case, asan_bin)
     return "fail", "unknown"
+
+
+def _repo_frames(block):
+    """[(function, file)] of the frames of one ASan stack that are in /repo/src, innermost first."""
+    return [(_norm_fn(m.group(1)), os.path.basename(m.group(2)))
+            for m in re.finditer(r"#\d+ 0x[0-9a-f]+ in (.+?) (/\S*/src/[\w.]+):\d+", block)]
+
+
+def classify_sanitizer(txt, case, asan_bin):
+    """Root-cause oriented name for a failure that only the ASan+UBSan build (asserts enabled) shows."""
+    m = re.search(r"^ledger: (\S+?):(\d+): (.*?): Assertion `(.*)' failed", txt, flags=re.M)
+    if m:
+        cond = re.sub(r"\s+", "", m.group(4))[:40]
+        if "/src/" in m.group(1) and not m.group(1).startswith("/usr/"):
+            fn = _norm_fn(re.sub(r"^(?:static |virtual |const )*(?:[\w:<>,\s\*&]+?\s)??(?=[\w:~{}]+\()", "", m.group(3)))
+            return "assert", "%s:%s:%s" % (os.path.basename(m.group(1)), fn.split("::")[-1], cond)
+        # an assertion inside boost / libstdc++: name the ledger function that tripped it
+        sig, frames = gdb_frames(case, asan_bin, env_extra={"ASAN_OPTIONS": "detect_leaks=0:abort_on_error=1"})
+        led = [f for f in frames if f and not f.startswith(_NOT_LEDGER) and not f.startswith(("__GI_", "__assert", "__pthread"))]
+        return "assert", "%s:%s" % (led[0] if led else os.path.basename(m.group(1)), cond)
+    m = re.search(r"terminate called after throwing an instance of '([^']+)'(?:\s+what\(\):\s*(.*))?", txt)
+    if m:
+        return "terminate", (m.group(1).split("::")[-1] + ":" + (m.group(2) or "")[:40]).strip(":")
+    m = re.search(r"(/\S*/src/[\w.]+):(\d+):\d+: runtime error: ([a-z -]+)", txt)
+    if m and "AddressSanitizer" not in txt:
+        return "ubsan", "%s:%s" % (os.path.basename(m.group(1)), m.group(3).strip().replace(" ", "-")[:40])
+    m = re.search(r"AddressSanitizer: ([a-z-]+)", txt)
+    if m:
+        err = m.group(1)
+        parts = re.split(r"\n(?=freed by thread|previously allocated by thread|allocated by thread)", txt)
+        access = _repo_frames(parts[0])
+        freed = _repo_frames(parts[1]) if len(parts) > 1 and parts[1].startswith("freed") else []
+        allfn = [f for f, _ in access + freed]
+        if any("temporaries_t" in f for f in allfn):
+            return "uaf", "temporaries-cross-filter"
+        if any(f.endswith("apply_deferred_posts") for f in allfn):
+            return "uaf", "account.cc:deferred-post-of-failed-xact"
+        if any(f.endswith("report_t::~report_t") or "push_report" in f or f.endswith("pop_report") for f in allfn) or "report_t::~report_t" in txt:
+            return "uaf", "report-freed"
+        if any(f.endswith("mask_t::operator=") for f in allfn) and any(f.endswith("in_place_cast") for f in allfn):
+            return "uaf", "value.cc:in_place_cast:set_mask-aliases-own-string"
+        kind = {"heap-use-after-free": "uaf", "stack-overflow": "stack"}.get(err, err)
+        if access:
+            return kind, "%s:%s" % (access[0][1], access[0][0])
+        return kind, "unknown"
+    return "fail", "unknown"
+
+
+# native frames that identify a root-cause family whatever the innermost function is
+FRAME_FAMILIES = [("temporaries_t::clear", ("uaf", "temporaries-cross-filter")), ("temporaries_t::~temporaries_t", ("uaf", "temporaries-cross-filter")),
+                  ("account_t::apply_deferred_posts", ("uaf", "account.cc:deferred-post-of-failed-xact"))]
+# a number streamed with a huge field width: libstdc++ pads it through alloca
+WIDTH_ALLOCA = ("stack", "value.cc:print:huge-width-alloca")
 
 
 def ddmin(items, test):
@@ -711,6 +783,26 @@ def shrink(case, binary, asan, kind, budget=None):
     return cur
 
 
+# root-cause fingerprints that replace earlier frame-based ones: while known_findings.json still lists the old name the
+# old name is reported, so that renaming the entries there is not a precondition for this check
+FINGERPRINT_ALIASES = {
+    "C11:uaf:temporaries-cross-filter": ["C11:crash:account_t::~account_t"],
+    "C11:repl-sequence:stale-merged-expr-definition": ["C11:stack:expr_t::op_t::calc"],
+    "C11:stack:self-referential-definition": ["C11:stack:bind_scope_t::lookup", "C11:stack:expr_t::op_t::calc"],
+    "C11:crash:filters.cc:generated-xact-null-journal": ["C11:crash:anonymize_posts::operator"],
+}
+
+
+def known_name(ctx, fp):
+    listed = {k.get("fingerprint") for k in ctx.known}
+    if fp in listed:
+        return fp
+    for old in FINGERPRINT_ALIASES.get(fp, []):
+        if old in listed:
+            return old
+    return fp
+
+
 def report_failure(ctx, case, outcome, binary, asan, hint=None):
     """A run died / hung / tripped a sanitizer: confirm, find the root cause, shrink, report."""
     kind = confirm_bad(case, binary, asan, outcome)
@@ -732,18 +824,48 @@ def report_failure(ctx, case, outcome, binary, asan, hint=None):
             w = canonical_witness(fp, ctx.sites)
             if w is not None:
                 rep["case"] = w.to_json()
-            ctx.violation(fp, "%s: ledger %s (%s)" % (what, "does not terminate" if kind == "hang" else "dies / is flagged: " + kind, "ASan build" if asan else "native"), rep)
+            ctx.violation(known_name(ctx, fp), "%s: ledger %s (%s)" % (what, "does not terminate" if kind == "hang" else "dies / is flagged: " + kind, "ASan build" if asan else "native"), rep)
             return
     # classify on the input as found (a shrunk input sits at the threshold of the failure and may not fail under gdb)
     cat, fn = top_frame(case, vflib.LEDGER, ctx.asan_binary, hang=(kind == "hang"))
     t1 = time.time()
     small = shrink(case, binary, asan, kind)
-    if fn == "unknown":
-        cat, fn = top_frame(small, vflib.LEDGER, ctx.asan_binary, hang=(kind == "hang"))
+    if fn == "unknown" or cat not in ("crash", "stack", "hang"):
+        c2, f2 = top_frame(small, vflib.LEDGER, ctx.asan_binary, hang=(kind == "hang"))
+        if f2 != "unknown":
+            cat, fn = c2, f2
+    seq = repl_sequence_family(small, binary, asan, kind)
+    if seq:
+        cat, fn = "repl-sequence", (seq if seq != "?" else fn)
     vflib.log("C11:   %s:%s shrunk %d -> %d bytes in %.1fs" % (cat, fn, case.size(), small.size(), time.time() - t1))
-    fp = "C11:%s:%s" % (cat, re.sub(r"[^A-Za-z0-9_.:~-]+", "_", fn)[:60])
+    fp = known_name(ctx, "C11:%s:%s" % (cat, re.sub(r"[^A-Za-z0-9_.:~>()-]+", "_", fn)[:70]))
     ctx.violation(fp, "ledger %s on a generated input (innermost frame %s)" % ("does not terminate" if kind == "hang" else "dies / is flagged: " + kind, fn),
                   {"case": small.to_json(), "observed": kind, "frame": fn, "binary": "asan" if asan else "native", "generator": case.kind, "hint": hint})
+
+
+MERGED_OPTS = re.compile(r"(?<![\w-])(-[ABDGHIOVXtT%]\b|--(?:average|average-lot-prices|basis|cost|dc|deviation|exchange|gain|change|historical|invert|market|percent|price|"
+                         r"quantity|unround|amount|total|display-amount|display-total|revalued|revalued-only)\b)")
+
+
+def repl_sequence_family(case, binary, asan, kind):
+    """A REPL session of several commands that fails although every command alone is clean: an effect of state shared
+    between commands.  Returns None (not a sequence effect), a root-cause name, or "?" (sequence effect, cause unknown).
+    Known cause: merged_expr_t::compile (expr.cc 239-260) defines `display_total=...` etc. in the SESSION's symbol table; the
+    definitions are bound to the report of that command, which is freed when the command ends; the next report finds them."""
+    if not case.stdin:
+        return None
+    lines = [l for l in case.stdin.decode("latin-1").split("\n") if l.strip()]
+    if len(lines) < 2:
+        return None
+    alone = vflib.pmap(lambda l: run_case(Case(case.args, case.journal, l + "\n", case.kind), binary, asan=asan), lines)
+    if any(o.bad() for o in alone):
+        return None
+    if any(MERGED_OPTS.search(l) for l in lines[:-1]):
+        neutral = [MERGED_OPTS.sub(" ", l) for l in lines[:-1]] + [lines[-1]]
+        o = run_case(Case(case.args, case.journal, "\n".join(neutral) + "\n", case.kind), binary, asan=asan)
+        if o.bad() is None:
+            return "stale-merged-expr-definition"
+    return "?"
 
 
 def handle_failures(ctx, failing, binary, asan):
@@ -795,7 +917,29 @@ PROBES = [
 ]
 
 
-def run_probes(ctx, binary, asan):
+# root causes found by the thorough tier (several are visible only in the ASan build, whose asserts are enabled)
+PROBES_THOROUGH = [
+    Case(["format", "%()"], kind="probe"),
+    Case(["eval", "'abc' =~ 'b'"], kind="probe"),
+    Case(["eval", "f(a,,b)=a"], kind="probe"),
+    Case(["bal"], "2012-1-4 T  ;UUID:\n L\n", kind="probe"),
+    Case(["csv", "--collapse", "-t", "''"], "2004/09/29  My Employer\n    Assets:x\n    Income:Salary   0.0\n", kind="probe"),
+    Case(["reg", "--account-width=1"], "02/02 p\n  Asstm  0.35 XX @ $1.00\n", kind="probe"),
+    Case(["select", "date, amount from posts", "--columns", "-5"], "2012-03-26 p\n    A            20.00 EUR\n    B\n", kind="probe"),
+    Case(["equity", "--group-by", "payee", "--gain"], "2020/2/1 p\n d  5 E @ 0\n s\n", kind="probe"),
+    Case([], "2020/2/5 p\n d  5@$1\n s\n", stdin="bal -V\nbal\n", kind="probe"),
+    Case(["reg", "--amount-width", "9000000"], BASE_JOURNAL, kind="probe"),
+    Case(["pricedb", "--datetime-format", "y" * 130], "P 2020/01/01 00:00:00 R $1\n2020/02/15 p\n d  5 R @ $.10\n    As\n", kind="probe"),
+    Case(["reg", "-X", "R", "--display-total", "account"], "2020/02/15 p\n d  5 R @ .10\n    As\n", kind="probe"),
+    Case(["reg", "--budget", "--account", "1"], "~ every 14 days from 2013\n    Assets  $1\n    B\n", kind="probe"),
+    Case(["bal", "--group-by", "payee", "-j"], "3-2 Q\n A  1\n B\n3-2 R\n A  1\n B\n", kind="probe"),
+    Case(["bal"], "1-01 T\n  ns  $100\n   i   $100\n Li    $100\n Liabilities:MasterCard\n1-04 Test\n    Liabilities:MasterCard  $150.00 = $-150\n    <Ang>\n ())", kind="probe"),
+    Case(["reg", "-A"], bytes.fromhex("30322f303220524420564d4d58580a20202020412020302e33300a202020766964656e64733a56616e67756172643a564d4d5858e220202000202020"), kind="probe"),
+]
+
+
+def run_probes(ctx, binary, asan, probes=None):
+    PROBES = probes or globals()["PROBES"]
     outs = vflib.pmap(lambda c: run_case(c, binary, asan=asan), PROBES)
     failing = []
     for c, o in zip(PROBES, outs):
@@ -1638,8 +1782,11 @@ def run(tier, seed):
         alias_correspondence(ctx, native, False, 400 if deep else 80)
         run_probes(ctx, native, False)
         boundary_streams(ctx, native, False)
+        if tier == "thorough":
+            run_probes(ctx, native, False, PROBES_THOROUGH)
         if tier == "thorough" and asan_bin:
             run_probes(ctx, asan_bin, True)
+            run_probes(ctx, asan_bin, True, PROBES_THOROUGH)
             boundary_streams(ctx, asan_bin, True)
         vflib.log("C11: probes done at %.1fs" % (time.time() - ctx.t0))
         # step.to model sanity against its theorem on a few values (pure model; the binary side is C13's)
